@@ -359,13 +359,36 @@ def insertSorted (x : String) : List String → List String
 
 def sortStrings (l : List String) : List String := l.foldr insertSorted []
 
-/-- jws (*Header).SetCritical: drop repeated names, sort.Strings -/
+def Fld.name : Fld → String
+  | .alg => "alg" | .enc => "enc" | .zip => "zip" | .jku => "jku" | .jwk => "jwk" | .kid => "kid"
+  | .x5u => "x5u" | .x5c => "x5c" | .x5t => "x5t" | .x5tS256 => "x5tS256" | .typ => "typ" | .cty => "cty"
+  | .crit => "crit" | .nb64 => "nb64" | .epk => "epk" | .apu => "apu" | .apv => "apv" | .iv => "iv"
+  | .tag => "tag" | .p2s => "p2s" | .p2c => "p2c"
+
+/-- `delete(h.Raw, name)` for each name -/
+def dropKeys (keys : List String) (raw : List (String × Wire)) : List (String × Wire) :=
+  raw.filter (fun kv => !keys.contains kv.1)
+
+/-- the member names a setter deletes from `Raw` (regenerated table `setterDeletes`) -/
+def deletesOf (tbl : List (String × List String)) (setter : String) : List String :=
+  match tbl.find? (fun e => e.1 == setter) with
+  | some e => e.2
+  | none => []
+
+/-- the plain setter of a field: the one that assigns exactly that field (regenerated table `setters`) -/
+def plainSetter (setters : List (String × List String)) (f : Fld) : String :=
+  match setters.find? (fun e => e.2 == [f.name]) with
+  | some e => e.1
+  | none => ""
+
+/-- jws (*Header).SetCritical: drops the decoded member from Raw, drops repeated names, sort.Strings -/
 def jwsSetCritical (h : Header) (crit : List String) : Header :=
-  { h with crit := sortStrings (dedup crit []) }
+  { h with crit := sortStrings (dedup crit []),
+           raw := dropKeys (deletesOf Gen.HeaderTables.jws.setterDeletes "SetCritical") h.raw }
 
 /-- jws (*Header).SetBase64: stores !b64 and appends "b64" to crit when b64 = false -/
 def jwsSetBase64 (h : Header) (b64 : Bool) : Header :=
-  let h1 := { h with nb64 := !b64 }
+  let h1 := { h with nb64 := !b64, raw := dropKeys (deletesOf Gen.HeaderTables.jws.setterDeletes "SetBase64") h.raw }
   if !b64 then
     if h1.crit.contains "b64" then h1 else { h1 with crit := h1.crit ++ ["b64"] }
   else h1
